@@ -259,3 +259,57 @@ def r13_e(ctx):
                             'item: on a token buffer the body of a verbatim-like environment gets a token index as its '
                             'source offset' % (norm(p) if p is not None else 'no position'), line=c.lineno))
     return rr
+
+
+def r13_f(ctx):
+    """offset -> (line, column): the line is the number of line breaks strictly before the offset"""
+    repo = ctx.repo
+    clo = repo.need_cls('utils.CharToLineOffset')
+    fds = clo.methods.get('__call__')
+    init = clo.methods.get('__init__')
+    if not fds or not init:
+        raise AnalysisError('CharToLineOffset.__call__/__init__ vanished')
+    fd = fds[-1]
+    rr = RuleResult('R13.f', 'the line of an offset is the number of line breaks strictly before it and its column the '
+                    'distance from the character after the previous break: the offset of a line break itself belongs to '
+                    'the line it ends', floor=2)
+    p = fd.params()[1]
+    # the table of break positions: offsets of '\\n' characters, in order
+    tab = None
+    for n in ast.walk(init[-1].node):
+        if isinstance(n, ast.Assign) and isinstance(n.targets[0], ast.Attribute) and isinstance(n.value, ast.ListComp):
+            g = n.value.generators[0]
+            if isinstance(g.iter, ast.Call) and norm(g.iter.func) == 'enumerate' and g.ifs and "'\\n'" in norm(g.ifs[0]):
+                tab = n.targets[0].attr
+    rr.ob(tab is not None, {'break_table': tab})
+    if tab is None:
+        raise AnalysisError('CharToLineOffset: table of line-break offsets not recognised')
+    calls = [n for n in ast.walk(fd.node) if isinstance(n, ast.Call) and norm(n.func).startswith('bisect')
+             and len(n.args) == 2 and norm(n.args[0]) == 'self.%s' % tab and norm(n.args[1]) == p]
+    if not calls:
+        raise AnalysisError('CharToLineOffset.__call__: line look-up not recognised')
+    for c in calls:
+        name = norm(c.func).split('.')[-1]
+        ok = name == 'bisect_left'
+        rr.ob(ok, {'line_lookup': norm(c)})
+        if not ok:
+            rr.fail(Finding('R13.f', 'utils', fd.qual, c, 'the line of an offset is computed with %s, which counts the line '
+                            'breaks at or before the offset: the offset of a line break is reported as (next line, -1) '
+                            'instead of (its line, length of that line)' % name, line=c.lineno))
+    # column arithmetic in the general branch
+    se = SymEval(fd.node)
+    line_var = None
+    for n in ast.walk(fd.node):
+        if isinstance(n, ast.Assign) and n.value in calls and isinstance(n.targets[0], ast.Name):
+            line_var = n.targets[0].id
+    cols = []
+    for n in ast.walk(fd.node):
+        if isinstance(n, ast.Assign) and isinstance(n.targets[0], ast.Name) and isinstance(n.value, ast.BinOp) \
+                and 'self.%s[' % tab in norm(n.value):
+            cols.append(n)
+    okc = any(norm(n.value).replace(' ', '') == ('%s-self.%s[%s-1]-1' % (p, tab, line_var)).replace(' ', '') for n in cols)
+    rr.ob(okc, {'column': [norm(n.value) for n in cols]})
+    if not okc:
+        rr.fail(Finding('R13.f', 'utils', fd.qual, cols[0] if cols else 'column arithmetic', 'the column is not the distance '
+                        'from the character after the previous line break', line=fd.node.lineno))
+    return rr
